@@ -1,5 +1,6 @@
 import RPVerif.Lemmas.TmgrSched
 import RPVerif.Lemmas.RRBalance
+import RPVerif.Lemmas.BFUsage
 
 /-!
 # C12 — Each task is bound to exactly one eligible pilot
@@ -225,5 +226,22 @@ theorem C12_rr_balance (pids : List Nat) (hn : pids.Nodup) (idx : Nat) (ts : Lis
    (rr_targets_eligible pids (List.length_pos_of_mem hP) idx ts).2⟩
 
 example : targets (rrAssign [5, 7, 9] 2 [⟨0, none, 1⟩, ⟨1, none, 1⟩, ⟨2, none, 1⟩, ⟨3, none, 1⟩]).2 = [9, 5, 7, 9] := by decide
+
+/-! ## backfilling: the usage figure -/
+
+/-- **the usage figure of backfilling is exact and returns to zero**: for every history of scheduler
+    callbacks (pilots added - also again after removal -, removed, state notifications in any order,
+    submissions, task state notifications, duplicates included) in which submissions and notifications
+    carry the cores of the task's description (`cf`), every pilot's `used` is the cores of the tasks
+    assigned to it minus the cores of those reported finished; a finished task is counted once; so
+    when all of a pilot's (distinct) tasks have finished its usage is zero -/
+theorem C12_bf_usage (cf : Nat → Nat) (c : BFCfg) (execVal : Nat) (ops : List Op) (hops : ∀ op ∈ ops, OpOK cf op)
+    (p : Pilot) (hp : p ∈ (bfRun c execVal {} ops).1.pilots) :
+    p.used = sumc cf p.tasks - sumc cf p.done
+    ∧ p.done.Nodup ∧ (∀ u ∈ p.done, u ∈ p.tasks)
+    ∧ (p.tasks.Nodup → (∀ u ∈ p.tasks, u ∈ p.done) → p.used = 0) := by
+  have hinit : BFInv cf ({} : S) := ⟨(fun q hq => by cases hq), (fun t ht => by cases ht)⟩
+  have h := (bfRun_inv cf c execVal ops hops {} hinit).pilots p hp
+  exact ⟨h.used, h.nodup, h.sub, fun hn hall => usedInv_zero cf p h hn hall⟩
 
 end RPVerif.C12
